@@ -51,7 +51,9 @@ Section Optimize.
     end.
 
   Definition canon := list (key * nat).
-  Record ost := { st_arena : arena; st_canon : canon }.
+  (* [st_oof]: the LEVEL fuel ran out somewhere (a coordinate tree of a transformed
+     oracle was left un-optimised); never set when the level fuel suffices *)
+  Record ost := { st_arena : arena; st_canon : canon; st_oof : bool }.
 
   Fixpoint canon_find (c : canon) (k : key) : option nat :=
     match c with
@@ -64,12 +66,13 @@ Section Optimize.
     let k := key_of (st_arena st) i in
     match canon_find (st_canon st) k with
     | Some j => (st, j)
-    | None => ({| st_arena := st_arena st; st_canon := (k, i) :: st_canon st |}, i)
+    | None => ({| st_arena := st_arena st; st_canon := (k, i) :: st_canon st;
+                  st_oof := st_oof st |}, i)
     end.
 
   (* lift an arena constructor into the state and uniq its result *)
   Definition lift_uniq (st : ost) (res : arena * nat) : ost * nat :=
-    uniq {| st_arena := fst res; st_canon := st_canon st |} (snd res).
+    uniq {| st_arena := fst res; st_canon := st_canon st; st_oof := st_oof st |} (snd res).
 
   Inductive cls :=
   | CAffNeg (x : nat)
@@ -211,6 +214,14 @@ Section Optimize.
     let '(st2, n) := collapse_side st1 neg in
     lift_uniq st2 (mk_bin O (st_arena st2) OP_SUB p n).
 
+  (* [coord]: Tree::optimized_helper(canonical) as called by
+     TransformedOracleClause::optimized on the underlying tree and on the three
+     coordinate trees (flatten if flagged, then optimise, SHARED canonical map).
+     The flattened root can be a new node, so this call is not covered by the
+     structural fuel: it is a parameter here and tied below by a level fuel. *)
+  Section Level.
+  Variable coord : ost -> nat -> ost * nat.
+
   Fixpoint opt_tree (fuel : nat) (st : ost) (i : nat) {struct fuel} : ost * nat :=
     match fuel with
     | 0 => (st, idInvalid)
@@ -245,10 +256,10 @@ Section Optimize.
           else lift_uniq st3 (mk_bin O (st_arena st3) op x' y')
       | NOracleT x y z u =>
           let '(st0, self) := uniq st i in
-          let '(st1, u') := opt_tree f st0 u in
-          let '(st2, x') := opt_tree f st1 x in
-          let '(st3, y') := opt_tree f st2 y in
-          let '(st4, z') := opt_tree f st3 z in
+          let '(st1, u') := coord st0 u in
+          let '(st2, x') := coord st1 x in
+          let '(st3, y') := coord st2 y in
+          let '(st4, z') := coord st3 z in
           lift_uniq st4 (push (st_arena st4) (NOracleT x' y' z' u'))
       | _ => uniq st i
       end
@@ -301,14 +312,64 @@ Section Optimize.
      between the four functions; 4 * (i + 1) is always enough. *)
   Definition opt_fuel (i : nat) : nat := 4 * (S i).
 
+  (* Tree::optimized_helper on a state: flatten when the remap flag is set, then
+     the stack machine on the flattened root, with its own structural fuel *)
+  Definition helper_with (st : ost) (i : nat) : ost * nat :=
+    let (a1, j) := flatten O (st_arena st) i in
+    opt_tree (opt_fuel j)
+             {| st_arena := a1; st_canon := st_canon st; st_oof := st_oof st |} j.
+  End Level.
+
+  Definition set_oof (st : ost) : ost :=
+    {| st_arena := st_arena st; st_canon := st_canon st; st_oof := true |}.
+
+  (* LEVEL fuel = nesting depth of transformed oracles: at level [S n] a
+     coordinate tree is handled by the level-[n] optimized_helper; at level 0 it
+     is left untouched and the out-of-fuel flag is raised *)
+  Fixpoint coord_lvl (n : nat) : ost -> nat -> ost * nat :=
+    match n with
+    | 0 => fun st i => (set_oof st, i)
+    | S k => helper_with (coord_lvl k)
+    end.
+
+  (* Tree::optimized_helper with [n] levels of nested transformed oracles *)
+  Definition optimized_helper_lvl (n : nat) (st : ost) (i : nat) : ost * nat :=
+    helper_with (coord_lvl n) st i.
+
+  (* A computable bound on the nesting depth of transformed oracles that
+     flatten + optimise can produce from node [i] (bottom-up, like the flags):
+     an oracle under k nested remaps whose coordinate maps hold oracles
+     themselves nests k deep.  (The underlying oracle of a transformed oracle is
+     taken to be a plain one, as flatten produces them.)  The node index is NOT a bound (a DAG that remaps a
+     shared sub-tree by itself doubles the depth at every node:
+     [lvl_index_insufficient] in OptimizePure.v). *)
+  Definition getb (bs : list nat) (i : nat) : nat := nth i bs 0.
+  Definition node_bnd (bs : list nat) (n : node) : nat :=
+    match n with
+    | NUnary _ x => getb bs x
+    | NBinary _ x y => Nat.max (getb bs x) (getb bs y)
+    | NOracle _ => 1
+    | NOracleT x y z _ => S (Nat.max (Nat.max (getb bs x) (getb bs y)) (getb bs z))
+    | NRemap x y z t => getb bs t + Nat.max (Nat.max (getb bs x) (getb bs y)) (getb bs z)
+    | NApply v e t => getb bs t + getb bs e
+    | _ => 0
+    end.
+  Definition all_bnd (a : arena) : list nat :=
+    fold_left (fun bs n => bs ++ [node_bnd bs n]) a [].
+  Definition bnd_of (a : arena) (i : nat) : nat := getb (all_bnd a) i.
+
+  Definition lvl_fuel (a : arena) (i : nat) : nat := S (bnd_of a i).
+
   (* Tree::optimized_helper on an unflagged handle; [canonical] is threaded *)
   Definition optimized_helper (a : arena) (c : canon) (i : nat) : ost * nat :=
-    let (a1, j) := flatten O a i in
-    opt_tree (opt_fuel j) {| st_arena := a1; st_canon := c |} j.
+    optimized_helper_lvl (lvl_fuel a i) {| st_arena := a; st_canon := c; st_oof := false |} i.
+
+  (* Tree::optimized, with the out-of-fuel flag *)
+  Definition optimized_full (a : arena) (i : nat) : (arena * nat) * bool :=
+    let '(st, j) := optimized_helper a [] i in ((st_arena st, j), st_oof st).
 
   (* Tree::optimized *)
-  Definition optimized (a : arena) (i : nat) : arena * nat :=
-    let '(st, j) := optimized_helper a [] i in (st_arena st, j).
+  Definition optimized (a : arena) (i : nat) : arena * nat := fst (optimized_full a i).
 
   (* Tree::eq via cooptimize against one shared canonical map *)
   Definition tree_eq (a : arena) (i j : nat) : arena * bool :=
